@@ -213,6 +213,10 @@ class SubsequenceSearch:
         else:
             distance = dtw.distance
             lb_keogh = dtw.lb_keogh
+            if self.use_lb and self.dists_options.get('psi', None):
+                # LB_Keogh is not a lower bound when the start or end of the series can be skipped
+                self.use_lb = False
+                logger.warning('The setting use_lb is ignored when psi-relaxation is used.')
         if k is None or self.keep_all_distances:
             # Series that are skipped based on the lower bound are further away than max_dist
             self.distances = np.full((len(self.s),), np.inf)
